@@ -17,7 +17,9 @@ FUNCTIONS = {
            # "the test's layer": a test is registered under (and so run with) the layer declared nearest to it
            + [('find_c09', 'find.tests_from_suite'), ('select_c03', 'find.find_tests'), ('select_c03', 'find.find_tests@order')]
            # a child process registers at most the layer it was started for (so nothing runs on top of a refused tearDown there)
-           + [('select_c03', 'filter.Filter.global_setup')],
+           + [('select_c03', 'filter.Filter.global_setup')]
+           # ... and finds it by the name the parent computed: the two name functions over the shared name cache
+           + [('names_c01', 'find.name_from_layer'), ('names_c01', 'runner.layer_from_name')],
     'C02': [(L, 'runner.handle_layer_failure'), (L, 'runner.tear_down_unneeded'), (L, 'runner.run_layer'),
             RUN_TESTS, RUNNER_LOOP, ('runner_spawn', 'runner.spawn_layer_in_subprocess'),
             # import errors are bad outcomes too: they reach the verdict through tests_from_suite / find_tests
@@ -89,7 +91,8 @@ FUNCTIONS = {
             ('configure_c03', 'runner.Runner.configure'),
             ('shuffle_c11', 'shuffle.Shuffle.__init__'), ('shuffle_c11', 'shuffle.Shuffle.global_setup'),   # same order in every mode
             # children see the same source tree: started in the directory the run was started from (relative search paths)
-            ('startdir_c03', '__init__.run_internal'), ('startdir_c03', 'runner.Runner.__init__')],
+            ('startdir_c03', '__init__.run_internal'), ('startdir_c03', 'runner.Runner.__init__'),
+            ('names_c01', 'find.name_from_layer'), ('names_c01', 'runner.layer_from_name')],   # the child finds its layer by that name
     'C06': [('runner_sched', 'runner.resume_tests'), ('runner_spawn', 'runner.spawn_layer_in_subprocess'),
             ('process_c07', 'process.SubProcess.report'),       # sentence 1 composes the lossless transfer (C07)
             # what of a child's stdout is kept for its block: everything but the keep-alive dot lines (regex lemma)
@@ -284,10 +287,11 @@ MANIFEST = {
                 "every feature has had early_teardown and global_teardown on every exit (normal, exception, "
                 "KeyboardInterrupt), teardown only after all set-ups; sys.stdout/sys.stderr: stopTest restores on every "
                 "protocol path (C13 contracts). Syntactic: the test phase is the body of the try/finally; warnings are "
-                "changed only inside catch_warnings().",
+                "changed only inside catch_warnings(); --profile: late_setup / early_teardown are enable / disable of one and "
+                "the same profiler object (bound once, after the profiler is created).",
         'note': COMMON_NOTE + "Assumed: gc/sys/threading/traceback functions read/write exactly the modelled state; "
-                "teardown methods do not raise; tests do not change these globals themselves; Profiling and the "
-                "composition over concrete option subsets are bounded (native oracle).",
+                "teardown methods do not raise; tests do not change these globals themselves; cProfile's enable/disable "
+                "pair (stdlib) and the composition over concrete option subsets are bounded (native oracle).",
     },
     'C19': {
         'text': "Proof of the report computation: at the test_threads call site new_threads is non-empty and contains "
